@@ -285,6 +285,39 @@ async fn main(plan: Plan) -> Outcome {
     // Let pools fill.
     world::sleep_ns(300 * MS).await;
 
+    // Background traffic (sampled runs): the application keeps sending while
+    // connections die, so a dead connection is never idle from the client's
+    // point of view. Every such request must still return.
+    let bg_stop = Arc::new(std::sync::atomic::AtomicBool::new(false));
+    let bg_hung: Arc<std::sync::Mutex<Vec<u64>>> = Arc::new(std::sync::Mutex::new(Vec::new()));
+    let bg_task = if plan.enumerated.is_none() && tape::chance("c10:background", 1, 2) {
+        let session = session.clone();
+        let stop = bg_stop.clone();
+        let hung = bg_hung.clone();
+        let gap = tape::range("c10:bg_gap", 100, 900) * MS;
+        let bound = plan.ka_interval + plan.ka_timeout + plan.hold + 30 * SEC;
+        Some(tokio::spawn(async move {
+            let mut k = 0u64;
+            while !stop.load(std::sync::atomic::Ordering::SeqCst) && k < 2000 {
+                k += 1;
+                let m = (1_000_000 + k) * 16;
+                let mut st = Statement::new(client::q_marker(m));
+                st.set_is_idempotent(true);
+                let session = session.clone();
+                let hung = hung.clone();
+                // Each request runs on its own so that a stuck one does not stop the traffic.
+                tokio::spawn(async move {
+                    if tokio::time::timeout(Duration::from_nanos(bound), session.query_unpaged(st, ())).await.is_err() {
+                        hung.lock().unwrap().push(m);
+                    }
+                });
+                world::sleep_ns(gap).await;
+            }
+        }))
+    } else {
+        None
+    };
+
     let detection = plan.ka_interval + plan.ka_timeout;
     let mut idx = 0u64;
     let mut fired_any = false;
@@ -419,6 +452,26 @@ async fn main(plan: Plan) -> Outcome {
         world::sleep_ns(tape::range("c10:between", 0, 15) * SEC).await;
     }
 
+    bg_stop.store(true, std::sync::atomic::Ordering::SeqCst);
+    if let Some(t) = bg_task {
+        let _ = t.await;
+        // Give the last background requests their full bound.
+        world::sleep_ns(plan.ka_interval + plan.ka_timeout + plan.hold + 31 * SEC).await;
+        let hung = bg_hung.lock().unwrap().clone();
+        if let Some(m) = hung.first() {
+            out.violation(
+                "c10.hang",
+                format!(
+                    "{} background requests (first marker {m}) did not return within keepalive {}+{} ms + hold + 30 s while faults {injected:?} were active (request timeout {:?})",
+                    hung.len(),
+                    plan.ka_interval / MS,
+                    plan.ka_timeout / MS,
+                    plan.request_timeout.map(|t| t / MS)
+                ),
+            );
+        }
+        out.count("background_runs", 1);
+    }
     // (d) recovery. Faults stop here: pending (not yet fired) cuts are disarmed.
     // Every dead connection is detected within keepalive interval + timeout and
     // its pool is refilled within the maximum reconnect back-off (10 s + jitter);
